@@ -232,7 +232,7 @@ def processInet (cfg : Cfg) (fileName : String) (content : Option Bytes) (family
     (inodes : Inodes) (filterPid : Option Nat) : Except Exc (List Raw) :=
   match content with
   | none =>
-    if fileName.endsWith "6" then .ok []        -- IPv6 not supported
+    if fileName.toList.getLast? = some '6' then .ok []      -- file.endswith('6'): IPv6 not supported
     else .error .fileNotFound
   | some c => processInetLines cfg family type inodes filterPid ((linesOf c).drop 1)
 
